@@ -2,6 +2,7 @@ package config
 
 import (
 	"fmt"
+	"math"
 	"time"
 
 	"github.com/spf13/pflag"
@@ -43,6 +44,14 @@ type RebalanceConfig struct {
 }
 
 func (c *RebalanceConfig) Validate() error {
+	// NaN compares false with everything so isn't caught by the range checks
+	// below.
+	if math.IsNaN(c.Threshold) {
+		return fmt.Errorf("threshold must be a number")
+	}
+	if math.IsNaN(c.ShedRate) {
+		return fmt.Errorf("shed-rate must be a number")
+	}
 	if c.Threshold < 0 {
 		return fmt.Errorf("threshold cannot be negative")
 	}
